@@ -70,10 +70,11 @@ const (
 	OProbe        // capacity probe (bounded files)
 	OReopenResize // close, reopen with FlagUpdMaxSize (A selects the new size)
 	OFreeTop      // free the A highest page ids
+	OFreeNew      // free the (A mod n)-th page (ascending ids) of the pages allocated and not yet freed/written in this transaction
 	numOpKinds
 )
 
-var opNames = [...]string{"begin", "alloc", "write", "read", "free", "flushpage", "flushtx", "checkpoint", "setroot", "commit", "rollback", "close", "reopen", "beginro", "mark", "probe", "reopen-resize", "freetop"}
+var opNames = [...]string{"begin", "alloc", "write", "read", "free", "flushpage", "flushtx", "checkpoint", "setroot", "commit", "rollback", "close", "reopen", "beginro", "mark", "probe", "reopen-resize", "freetop", "freenew"}
 
 func (k OpKind) String() string { return opNames[k] }
 
